@@ -149,6 +149,30 @@ def name_split(idx, rep, rid):
     rep.check(bad is None, rid, f"{fi.file}::ExpressionUtility.get_name_and_qualifiers split table", bad or f"{n} names", K.where(fi, fi.node))
 
 
+def named_file_substitution(idx, rep, rid):
+    """A csvpath of a CsvPaths that names a registered file (`$orders[…][…]`) runs against that file's path: only the file designator after
+    the `$` is replaced; the scan part, the match part, strings, header and variable names stay as written — also when they contain the
+    file's name (interpreted CsvPath._update_file_path; the file manager is the boundary)"""
+    fi = idx.method("CsvPath", "_update_file_path")
+    rep.analysed(fi)
+    PATHS = {"orders": "inputs/named_files/orders/orders.csv/5250b3c0.csv", "f": "inputs/named_files/f/f.csv/77aa.csv", "1": "inputs/named_files/1/x.csv/01.csv"}
+    cases = [
+        ("orders", '$orders[1*][ #status == "orders" @kind = "orders" ]'), ("orders", "$orders[*][ #orders_id == 1 @orders = #0 ]"),
+        ("f", '$f[*][ first(#f) @f = "f" fail() ]'), ("f", "  $f[1-3][ yes() ]"), ("1", "$1[1+11][ #1 == 1 ]"), ("unknown", "$unknown[*][ #unknown ]"),
+    ]
+    bad = None
+    for name, text in cases:
+        it = Interp(idx, types={"self": "CsvPath"}, unknown_calls="residual",
+                    handlers={".get_named_file": lambda i, c, r, a, k: PATHS.get(a[0])},
+                    domains={"self.csvpaths": [Obj("cps")]})
+        ps = it.run_all(fi, args={"data": text})
+        want = text if name not in PATHS else text.replace("$" + name, "$" + PATHS[name], 1)
+        if len(ps) != 1 or ps[0].result != ("return", want):
+            bad = bad or (f"named file {name!r}: {text!r} becomes {ps[0].result[1] if ps and ps[0].result[0] == 'return' else [p.result for p in ps][:2]!r}; documented {want!r} "
+                          "(only the designator after `$`; a literal, header or variable that contains the file's name stays as written)")
+    rep.check(bad is None, rid, f"{fi.file}::CsvPath._update_file_path replaces the file designator only", bad or f"{len(cases)} csvpaths", K.where(fi, fi.node))
+
+
 def run(idx, rep, tier):
     rep.explanation = (
         "The match grammar string is extracted from the source; it builds as LALR(1) without conflicts (one tree per token sequence) and is "
@@ -167,6 +191,7 @@ def run(idx, rep, tier):
     rep.analysed(mm.fparse, *[m for n, m in mm.tcls.methods.items() if n != "__init__"], idx.method("ExpressionUtility", "get_name_and_qualifiers"),
                  idx.method("ExpressionUtility", "_parse_quoted"))
     name_split(idx, rep, "R2")
+    named_file_substitution(idx, rep, "R6")
     # the text handed to the match grammar is the csvpath as written: only outer comments are split off (C15's split corpus)
     from . import c15
     c15.r6(idx, K.as_rule(rep, "R6", keep=lambda k: "extract_csvpath_and_comment" in k or "extract_metadata" in k))
